@@ -117,6 +117,8 @@ def main(tier, seed):
             # (flush/seek change nothing when nothing is buffered; write/truncate on the primary are state changes)
             if rec["before_bytes"] != rec["after_bytes"]:
                 why = "a read / no-op operation wrote to the primary file"
+        elif mode in ("r", "a") and kind in ("remove_none", "update_nochange", "update_nomatch", "update_all_same") and not raised:
+            why = f"a write operation (although it would change nothing) on a database opened with access mode {mode!r} did not raise"
         elif readonly and kind in WRITE_KINDS:
             if not raised:
                 why = f"a write on a database opened with access mode {mode!r} did not raise"
